@@ -328,7 +328,7 @@ func runProxy(sc proxyScen, idx int) (*proxyTrace, error) {
 	}
 	var h *l4proxy.Handler
 	var compiled layer4.Handler
-	if sc.Via == "route" || sc.Via == "route2" || sc.Via == "bigroute" || sc.Via == "throttle" || sc.Via == "pp" || sc.Via == "ppu" || sc.Transport == "tls" {
+	if sc.Via == "route" || sc.Via == "route2" || sc.Via == "bigroute" || sc.Via == "throttle" || sc.Via == "throttle2" || sc.Via == "pp" || sc.Via == "ppu" || sc.Transport == "tls" {
 		hj := map[string]any{"handler": "proxy"}
 		for k, v := range hcfg {
 			hj[k] = v
@@ -346,6 +346,12 @@ func runProxy(sc proxyScen, idx int) (*proxyTrace, error) {
 		if sc.Transport == "tls" {
 			// the real tls handler terminates the client's TLS; the next route (no matchers) relays the plaintext
 			routes = []map[string]any{{"match": []map[string]any{{"tls": map[string]any{}}}, "handle": []map[string]any{{"handler": "tls"}}}, {"handle": []map[string]any{hj}}}
+		}
+		if sc.Via == "throttle2" {
+			// both limiters configured, generous rates, the total burst below the per-connection burst and both below the
+			// size the relay reads with (8192): every read has to be cut to the smaller burst
+			routes = []map[string]any{{"handle": []map[string]any{{"handler": "throttle", "read_bytes_per_second": 50000000, "read_burst_size": 4096,
+				"total_read_bytes_per_second": 50000000, "total_read_burst_size": 2048}, hj}}}
 		}
 		if sc.Via == "pp" || sc.Via == "ppu" {
 			// the shipped proxy_protocol handler in front: it consumes the header the client sends first and wraps the connection
